@@ -47,6 +47,13 @@ def run(rep, tier):
         full = [(0, T.M64)]
         lens = [(0, sp['length_max'])]
         check_pack(rep, enc['binson_write_integer:pack'], 0x10, 'integer', full, 'binson_write_integer')
+        # the length that is packed must be the caller's length for every value of it (no path may shorten or lengthen it):
+        # the pieces of the argument domain covered by the packing rows must tile 0..2^63-1 completely
+        for f in ('binson_write_string_with_len', 'binson_write_bytes'):
+            cov = T.norm_set([iv for (b, w, iv) in enc[f + ':pack'] if iv])
+            rep.ob(cov == [(0, (1 << 63) - 1)], '%s:ENC-LEN-COVER' % f,
+                   'C05 %s: the packed length does not range over exactly the caller\'s lengths (%s)' % (f, [(hex(a), hex(b)) for a, b in cov]), '',
+                   sample={'fn': f, 'packed_length_domain': '0..PTRDIFF_MAX'})
         check_pack(rep, enc['binson_write_string_with_len:pack'], 0x14, 'string', lens, 'string length prefix')
         check_pack(rep, enc['binson_write_bytes:pack'], 0x18, 'bytes', lens, 'bytes length prefix')
         # lengths above INT32_MAX must be flagged, not silently encoded
@@ -72,7 +79,8 @@ def run(rep, tier):
         for f in ('binson_write_string_with_len', 'binson_write_bytes'):
             pay = [r['writes'][1] for r in enc[f] if len(r['writes']) > 1]
             need(pay, 'C05: no payload write observed in %s' % f)
-            rep.ob(all(p[2] == 'USPAN' and (p[3] or '').startswith('length') for p in pay), '%s:ENC-PAYLOAD' % f,
+            import re as _re
+            rep.ob(all(p[2] == 'USPAN' and _re.match(r'^length#[0-9]+$', p[3] or '') for p in pay), '%s:ENC-PAYLOAD' % f,
                    'C05 %s does not copy exactly `length` bytes of the caller\'s data as payload: %s' % (f, pay[:2]), '',
                    sample={'fn': f, 'payload': 'caller span, announced length'})
         rep.coverage['encoder_table'] = {k: [list(map(str, r)) for r in v] for k, v in enc.items() if k.endswith(':pack')}
